@@ -47,6 +47,12 @@ def gen_cases(rng, tier):
                     spec["variables"].append({"name": nm, "shape": [1, 1], "grid": "", "role": "horizon", "guess": g})
                     spec[key] = {"kind": "var", "name": nm, "guess": g}
                     spec["initial"] = spec.get("initial", []) + [{"target": nm, "kind": "const", "val": g}]
+        for key in ("T", "t0"):
+            # an explicit guess through set_initial(ocp.T / ocp.t0, value) overrides the FreeTime default
+            if spec[key]["kind"] == "free" and rng.random() < 0.3:
+                g = ocpgen.rnd(rng, 0.3, 3.0, 3) if key == "T" else ocpgen.rnd(rng, -2, 2, 3)
+                spec["initial"] = spec.get("initial", []) + [{"target": key, "kind": "const", "val": g}]
+                spec[key] = dict(spec[key], guess=g, declared_guess=spec[key]["guess"], user_guess=True)
         ncon = rng.randint(1, 3)
         spec["constraints"] = [ocpgen.gen_constraint(rng, spec, cid + 1, grids=["control", "integrator"],
                                                      allow_offsets=False) for cid in range(ncon)]
@@ -76,6 +82,7 @@ def fixed_twin(spec, c, c0):
             if sp[key]["kind"] == "var":
                 sp["variables"] = [v for v in sp["variables"] if v["name"] != sp[key]["name"]]
                 sp["initial"] = [g for g in sp.get("initial", []) if g["target"] != sp[key]["name"]]
+            sp["initial"] = [g for g in sp.get("initial", []) if g["target"] != key]     # guesses for the horizon itself
             sp[key] = {"kind": "num", "val": val}
     return sp
 
